@@ -1,4 +1,6 @@
 import I18n.Model.Charset
+import I18n.Model.CharsetCns
+import I18n.Spec.CharsetIconv
 import I18n.Driver.Util
 /-!
 Driver for the charset model (`charset <op> <args…>`).  Names and texts travel as `.`-separated hex code points (`-` = empty),
@@ -16,6 +18,11 @@ byte strings as plain hex (`-` = empty), "no value" as `~`.
 * `check <name> <is_template> <dec> <codec | ~> <characters | ~ (no language) | ^ (no list)> <oracle>` →
   tags and the encoding kept; `<oracle>` = `;`-separated `<enc name>=<joined outcome>:<per-character outcomes>` (or `~`)
 * `loader <len> <raw decode outcome>` → `ok <text> | ude <start> <stop> | crash`
+* `euctw-rdec <bytes>` → `ok <text> rt=<0|1> | err <offset> <eilseq|einval>` and `euctw-renc <text>` → `ok <bytes> | err <index>`: the same over
+  the tables of the system iconv (`Generated.CharsetCns*`); `rt` = no redundant unit, i.e. encode(decode(b)) = b by `euctw_roundtrip`
+* `lookup <name>` → `none | some <codec name>`: the model of `codecs.lookup(name).name` with the tool installed
+* `refdec <euctw|koi8t> <bytes> <told>` / `refenc <euctw|koi8t> <text> <told>` → `<rc> <consumed> <written>`: ONE conversion call of the
+  reference iconv (`Spec/CharsetIconv.lean`) told `<told>` bytes of room — compared with the call the real glibc answered
 * `euctw-dec <bytes> <cns oracle>` → `ok <text> | err <offset> <eilseq|einval>`; `euctw-enc <text> <inverse oracle>` → `ok <bytes> | err <index>`
 -/
 namespace I18n.Driver.Charset
@@ -92,6 +99,11 @@ def showTag : Tag → String
   | .unrepresentable e cs => s!"unrepresentable-characters({showName e},{showChars cs})"
 
 def tableOf (file : Name) : List Nat := ((charmaps.find? (·.1 == file)).map (·.2)).getD []
+
+def showCall (c : Call) : String :=
+  let rc := match c.rc with
+    | .ok => "ok" | .e2big => "e2big" | .eilseq => "eilseq" | .einval => "einval" | .other n => toString n
+  s!"{rc} {c.consumed} {showBytes c.written}"
 
 def handle (op : String) (args : List String) : String :=
   match op, args with
@@ -188,6 +200,27 @@ def handle (op : String) (args : List String) : String :=
     match eucTwEncode inv (nameOf t) with
     | .ok bs => s!"ok {showBytes bs}"
     | .error i => s!"err {i}"
+  | "euctw-rdec", [b] =>
+    -- the tables of the system iconv (Generated.CharsetCns*): text + "does encode(decode(b)) = b hold" as the theorem predicts
+    let bs := bytesOf b
+    match eucTwDecodeReal bs with
+    | .ok cs => s!"ok {showName cs} rt={if eucTwNoRedundant cnsReal bs.length bs then 1 else 0}"
+    | .error (i, incomplete) => s!"err {i} {if incomplete then "einval" else "eilseq"}"
+  | "euctw-renc", [t] =>
+    match eucTwEncodeReal (nameOf t) with
+    | .ok bs => s!"ok {showBytes bs}"
+    | .error i => s!"err {i}"
+  | "lookup", [n] =>
+    match registryLookup pyAliases pyModules unmangle portableEncodings extraEncodings (nameOf n) with
+    | none => "none"
+    | some c => s!"some {showName c}"
+  | "refdec", [cs, b, told] =>
+    let bs := bytesOf b
+    let unit : UnitFn := if cs == "euctw" then eucUnitFn cnsReal else tableUnitFn (iconv_KOI8_T.map fun o => o.getD undefinedCp)
+    showCall (refDecGo unit bs.length bs 0 told.toNat!)
+  | "refenc", [cs, t, told] =>
+    let enc := if cs == "euctw" then eucTwEncodeChar invReal else sbEncodeChar (iconv_KOI8_T.map fun o => o.getD undefinedCp)
+    showCall (refEncGo enc (nameOf t) 0 told.toNat!)
   | _, _ => "bad-op"
 
 end I18n.Driver.Charset
